@@ -1,7 +1,7 @@
 (* C12 - the VM is total, bounded and memory-safe on every script.
    Statements only; every proof is [exact lemma]. *)
 From NG Require Import VM.Model VM.Total VM.LimitsData VM.Limits VM.Reach VM.Static VM.StaticProofs VM.RefsFlat VM.RefsFlatOps VM.RefsFlatStep
-  VM.RefsInv VM.RefsMoves VM.RefsData VM.RefsOps VM.RefsComp VM.RefsShape VM.RefsExact VM.RefsExactOps VM.RefsStep.
+  VM.RefsInv VM.RefsMoves VM.RefsData VM.RefsOps VM.RefsComp VM.RefsShape VM.RefsExact VM.RefsExactOps VM.Loader VM.RefsStep.
 Open Scope Z_scope.
 
 (* the premise on the price table generated from pkg/core/fee: every opcode costs at least one unit, except the
@@ -94,7 +94,7 @@ Print Assumptions C12_runp_is_run.
    [prog] is a list of Z standing for the script bytes; the premise says they are bytes in so far as it matters
    (not negative) - without it the statement is false for the trivial reason shown in
    C12_refs_premise_needed_example (INITSSLOT with a "count byte" of -5).
-   Scope: the bare VM ([step]: one script context, SYSCALL / CALLT fault), with REMOVE on a Map in the order of the
+   Scope here: the bare VM ([step]: SYSCALL / CALLT fault; several scripts: C12_refs_never_undercount_multi below), with REMOVE on a Map in the order of the
    repair F50 (fixes/F50-remove-map-entry-before-uncounting.diff): vm.go as found under-counts there, see notes/C12.md.
    ------------------------------------------------------------------------------------------------------------ *)
 Definition C12_refs_never_undercount_statement : Prop :=
@@ -262,6 +262,82 @@ Theorem C12_refs_exact_step : forall Lk s,
   match step s with Running s' => sIk Lk s' | Halted s' => sIk Lk s' | Faulted _ => True end.
 Proof. exact step_sIk_acyc. Qed.
 Print Assumptions C12_refs_exact_step.
+
+(* ------------------------------------------------------------------------------------------------------------
+   Several scripts on one VM (contract calls), exceptions unwinding across script boundaries.
+
+   [sys_load scripts] (VM/Loader.v) is the SYSCALL handler that loads script k on top of the executing one the way the
+   node does it (own evaluation stack or the shared one, return-value count); [run_with] runs with a handler.  The
+   invariant [sIk] covers any number of suspended script contexts: the static slot of a script is released when its LAST
+   context is unloaded - also when an exception unwinds several of its contexts at once -, RET moves the results onto
+   the stack below, an exception that leaves a script un-counts what is still on that script's own stack (the repair
+   F58; vm.go as found drops the stack and keeps the counts: over-count without a cycle, known finding).
+   ------------------------------------------------------------------------------------------------------------ *)
+Theorem C12_refs_never_undercount_multi : forall n prog scripts sid base limit s,
+  Forall (fun b => 0 <= b) prog -> Forall (Forall (fun b => 0 <= b)) scripts ->
+  (run_with (sys_load scripts) n (init_state prog sid base limit) = Running s \/
+   run_with (sys_load scripts) n (init_state prog sid base limit) = Halted s) ->
+  reach_count s <= s_refs s.
+Proof. exact refs_never_undercount_multi. Qed.
+Print Assumptions C12_refs_never_undercount_multi.
+
+Theorem C12_refs_exact_acyclic_multi : forall n prog scripts sid base limit,
+  Forall (fun b => 0 <= b) prog -> Forall (Forall (fun b => 0 <= b)) scripts ->
+  run_acyclic_with (sys_load scripts) n (init_state prog sid base limit) ->
+  match run_with (sys_load scripts) n (init_state prog sid base limit) with
+  | Running s => reach_count s = s_refs s
+  | Halted s => reach_count s = s_refs s
+  | Faulted _ => True
+  end.
+Proof. exact refs_exact_acyclic_multi. Qed.
+Print Assumptions C12_refs_exact_acyclic_multi.
+
+(* the steps that are new with several scripts: loading, and unloading a context in every situation (same script; last
+   context of a loaded script by RET, on a shared stack, by an exception; last context of all) *)
+Theorem C12_refs_sound_load : forall Lk s prog sid rv,
+  sIk Lk s -> Forall (fun b => 0 <= b) prog -> sIk Lk (load_script s prog sid rv).
+Proof. exact load_script_sI. Qed.
+Print Assumptions C12_refs_sound_load.
+Theorem C12_refs_sound_unload : forall Lk b s,
+  sIk Lk s -> match unload b s with UNext s' => sIk Lk s' | ULast s' => sIk Lk s' | UFault => True end.
+Proof. exact unload_sI. Qed.
+Print Assumptions C12_refs_sound_unload.
+Theorem C12_refs_sound_unwind : forall Lk fuel s s', sIk Lk s -> unwind fuel s = Some s' -> sIk Lk s'.
+Proof. exact unwind_sI. Qed.
+Print Assumptions C12_refs_sound_unwind.
+Theorem C12_refs_sound_step_with : forall sys s,
+  sys_ok sys -> sI s -> match step_with sys s with Running s' => sI s' | Halted s' => sI s' | Faulted _ => True end.
+Proof. exact step_with_sI. Qed.
+Print Assumptions C12_refs_sound_step_with.
+
+(* non-vacuity: the caller TRY ... SYSCALL 1 ... catch: DROP ... DEPTH; the callee has three counted static fields (one
+   an Array), calls an internal function that has a Map in its local slot and throws there: two contexts of the callee
+   are unwound at once, its static slot is released once; afterwards counter = walk = 1.  Second callee: PUSH1 PUSH2
+   PUSH3 THROW (items left on the abandoned stack: the F58 witness): likewise 1 = 1 in the model. *)
+Example C12_refs_multi_example :
+  let entry := [59; 10; 0; 65; 1; 0; 0; 0; 61; 5; 69; 61; 2; 67] in
+  let callee := [86; 3; 17; 96; 194; 97; 52; 3; 64; 87; 1; 0; 200; 112; 23; 58] in
+  run_acyclic_with (sys_load [callee]) 30 (init_state entry 1%N 1 1000000) /\
+  match run_with (sys_load [callee]) 30 (init_state entry 1%N 1 1000000) with
+  | Halted s => reach_count s = 1 /\ s_refs s = 1 /\ final_stack s = [IInt 0] | _ => False end /\
+  match run_with (sys_load [[17; 18; 19; 58]]) 30 (init_state entry 1%N 1 1000000) with
+  | Halted s => reach_count s = 1 /\ s_refs s = 1 | _ => False end.
+Proof.
+  cbv zeta. split; [apply run_acyclicb_with_sound; vm_compute; reflexivity|].
+  split; vm_compute; repeat split; reflexivity.
+Qed.
+
+(* releasing the static slot of a script while one of its contexts remains (per-context release) is refuted: in the state
+   just before the THROW of the example above (callee: two contexts, three static fields) one extra release of the static
+   slot leaves the counter at 2 while 5 references are reachable *)
+Example C12_static_release_per_context_refuted :
+  let entry := [59; 10; 0; 65; 1; 0; 0; 0; 61; 5; 69; 61; 2; 67] in
+  let callee := [86; 3; 17; 96; 194; 97; 52; 3; 64; 87; 1; 0; 200; 112; 23; 58] in
+  match run_with (sys_load [callee]) 12 (init_state entry 1%N 1 1000000) with
+  | Running s => depth s = 3 /\ reach_count s = 5 /\ s_refs s = 5 /\
+                 snd (clear_slot (sc_static (s_sc s)) (s_heap s, s_refs s)) = 2
+  | _ => False end.
+Proof. vm_compute. repeat split; reflexivity. Qed.
 
 (* A special case proved in the first round (from any compound-free state, not only the initial one): as long as none of the
    nine compound-creating instructions (NEWARRAY0 NEWARRAY NEWARRAY_T NEWSTRUCT0 NEWSTRUCT NEWMAP PACK PACKSTRUCT PACKMAP)
